@@ -6,6 +6,7 @@ import (
 	"encoding/json"
 	"fmt"
 	"os"
+	"path"
 	"sort"
 	"strings"
 	"sync"
@@ -24,6 +25,10 @@ type c13Op struct {
 	Kind   string `json:"kind"` // submit status list cancel release force-release results burst
 	Unit   int    `json:"unit"` // index into the units submitted so far (mod), -1: unknown id
 	N      int    `json:"n,omitempty"`
+	// Alias: the request names the unit by another spelling of its directory ("<id>/", "<id>/.", "./<id>", "<id>//").
+	// Whatever the node answers, it must not end up knowing two units for one directory, and the real unit's history
+	// stays subject to every other oracle.
+	Alias string `json:"alias,omitempty"`
 }
 
 type C13Plan struct {
@@ -85,6 +90,12 @@ func genC13(seed uint64, tier string) any {
 		}
 		if r.Bool(0.08) {
 			op.Unit = -1
+		}
+		if h := simnet.H(seed, "c13alias", i); h%100 < 12 && op.Unit >= 0 {
+			switch op.Kind {
+			case "status", "cancel", "release", "force-release", "results":
+				op.Alias = []string{"%s/", "%s/.", "./%s", "%s//", "../" + "%[2]s/%[1]s"}[(h/100)%5]
+			}
 		}
 		p.Ops = append(p.Ops, op)
 	}
@@ -173,6 +184,25 @@ func runC13(t *testing.T, planAny any, res *simnet.Result) {
 			}
 			return units[i%len(units)]
 		}
+		spelled := func(op c13Op, unit string) string {
+			if op.Alias == "" || unit == "nosuchid" {
+				return unit
+			}
+			res.Add("alias_requests", 1)
+			return fmt.Sprintf(op.Alias, unit, path.Base(node.UnitDirReal("")))
+		}
+		// no two known units may designate one directory
+		oneDirPerUnit := func(listed []string, when string) {
+			byDir := map[string]string{}
+			sort.Strings(listed)
+			for _, u := range listed {
+				d := path.Clean(path.Join(node.UnitDirReal(""), u))
+				if prev, dup := byDir[d]; dup {
+					res.Violate("c13:two-units-one-directory", "%s: units %q and %q are both known and share the directory of %s", when, prev, u, path.Base(d))
+				}
+				byDir[d] = u
+			}
+		}
 		var wg sync.WaitGroup
 		ops := append([]c13Op(nil), p.Ops...)
 		sort.SliceStable(ops, func(i, j int) bool { return ops[i].AtMs < ops[j].AtMs })
@@ -209,10 +239,13 @@ func runC13(t *testing.T, planAny any, res *simnet.Result) {
 							mu.Unlock()
 						})
 					}
-					reply, err := c.Cmd("work "+op.Kind+" "+unit, 60*time.Second)
+					mu.Lock()
+					name := spelled(op, unit)
+					mu.Unlock()
+					reply, err := c.Cmd("work "+op.Kind+" "+name, 60*time.Second)
 					if err != nil {
 						mu.Lock()
-						res.Violate("c13:no-answer", "work %s %s: no answer within 60 s (%v)", op.Kind, unit, err)
+						res.Violate("c13:no-answer", "work %s %s: no answer within 60 s (%v)", op.Kind, name, err)
 						mu.Unlock()
 						return
 					}
@@ -271,19 +304,27 @@ func runC13(t *testing.T, planAny any, res *simnet.Result) {
 					if strings.HasPrefix(reply, "ERROR") || json.Unmarshal([]byte(reply), &v) != nil {
 						return
 					}
+					var listed []string
 					for unit, st := range v {
-						noteStatus(unit, st, w.Now())
+						listed = append(listed, unit)
+						noteStatus(path.Base(path.Clean(unit)), st, w.Now())
 						mu.Lock()
-						if relAt, ok := released[unit]; ok && t0 > relAt {
+						if relAt, ok := released[path.Base(path.Clean(unit))]; ok && t0 > relAt {
 							res.Violate("c13:released-unit-listed", "unit %s was released at %v but is listed at %v", unit, relAt, t0)
 						}
 						mu.Unlock()
 					}
+					mu.Lock()
+					oneDirPerUnit(listed, "work list")
+					mu.Unlock()
 				case "results":
 					unit := pick(op.Unit)
 					c := node.Session("unix")
 					defer c.Close()
 					_, _ = c.Hello()
+					mu.Lock()
+					unit = spelled(op, unit)
+					mu.Unlock()
 					hdr, err := c.Cmd("work results "+unit+" 0", 60*time.Second)
 					if err == nil && strings.HasPrefix(hdr, "Streaming") {
 						_, _ = c.ReadAll(20 * time.Second)
@@ -312,6 +353,21 @@ func runC13(t *testing.T, planAny any, res *simnet.Result) {
 			var v map[string]any
 			if json.Unmarshal([]byte(reply), &v) == nil {
 				noteStatus(unit, v, w.Now())
+			}
+		}
+		if reply, err := c.Cmd("work list", 30*time.Second); err != nil {
+			res.Violate("c13:no-answer", "final work list: %v", err)
+		} else {
+			var v map[string]map[string]any
+			if json.Unmarshal([]byte(reply), &v) == nil {
+				var listed []string
+				for unit := range v {
+					listed = append(listed, unit)
+					if _, rel := released[path.Base(path.Clean(unit))]; rel {
+						res.Violate("c13:released-unit-listed", "unit %s was released but is listed at the end", unit)
+					}
+				}
+				oneDirPerUnit(listed, "final work list")
 			}
 		}
 		c.Close()
